@@ -178,10 +178,11 @@ Proof.
     match type of H with wbind ?x _ = _ => destruct x as [w1|w1| |] eqn:EH end; cbn [wbind] in H; try discriminate.
     apply hash_write_ok in EH as (B1 & _).
     assert (En : n = rev rest ++ rev cs) by (rewrite <- (rev_involutive n), Erl, rev_app_distr; reflexivity).
-    rewrite E, En, mlen_wire_rel_app. rewrite B1, mlen_app in *.
+    assert (L1 : mlen (w_buf w1) = mlen (w_buf w) + mlen (wire_rel (rev rest))) by (rewrite B1, mlen_app; reflexivity).
+    rewrite E, En, mlen_wire_rel_app.
     destruct (N.eqb_spec position hash_root_pos) as [X|X].
-    + apply append_slice_mlen in H. rewrite H, mlen_app. change (mlen [0]) with 1. lia.
-    + apply write_ptr_len in H. rewrite H, mlen_app.
+    + apply append_slice_mlen in H. rewrite H. change (mlen [0]) with 1. lia.
+    + apply write_ptr_len in H. rewrite H.
       destruct cs as [|x cs]; [specialize (Hcs eq_refl); congruence|].
       cbn [rev]. rewrite mlen_wire_rel_app. pose proof (mlen_wire_rel_pos x []). lia.
 Qed.
@@ -200,3 +201,230 @@ Proof.
     + destruct (append_slice c (wire_abs n) w) as [w1|w1| |] eqn:E1; cbn [wbind] in H; try discriminate.
       apply append_slice_mlen in E1. apply IH in H. cbn [item_ulen]. lia.
 Qed.
+
+(* ------------------------------------------------------------- the writers *)
+
+Lemma compose_items_nodead c (ok : N -> Prop) : forall items w,
+  WG c ok w -> (forall i, mlen (w_buf w) <= i -> ok i) -> Forall wf_item items ->
+  NoDead (compose_items c items w).
+Proof.
+  induction items as [|it r IH]; intros w HW Ho Hwf; cbn [compose_items]; [exact I|].
+  inversion Hwf as [|? ? Hit Hwf']; subst.
+  destruct it as [b|n|n].
+  - apply NoDead_bind; [apply append_slice_nodead|]. intros w1 E1.
+    destruct (WG_append c ok b w w1 HW E1) as (HW1 & B1). apply IH; auto.
+    intros i Hi. apply Ho. rewrite B1, mlen_app in Hi. lia.
+  - apply NoDead_bind; [apply (acn_nodead c ok); exact (proj2 (proj2 HW))|]. intros w1 E1.
+    destruct (WG_acn c ok n w w1 HW Ho Hit E1) as (HW1 & _ & sfx & B1). apply IH; auto.
+    intros i Hi. apply Ho. rewrite B1, mlen_app in Hi. lia.
+  - apply NoDead_bind; [apply append_slice_nodead|]. intros w1 E1.
+    destruct (WG_append c ok _ w w1 HW E1) as (HW1 & B1). apply IH; auto.
+    intros i Hi. apply Ho. rewrite B1, mlen_app in Hi. lia.
+Qed.
+
+Lemma compose_question_nodead c q w :
+  WG c ok12 w -> wf_q q -> NoDead (compose_question c q w).
+Proof.
+  intros HW (Hn & _). unfold compose_question.
+  apply NoDead_bind; [apply (acn_nodead c ok12); exact (proj2 (proj2 HW))|]. intros w1 _.
+  apply NoDead_bind; [apply append_slice_nodead|intros; apply append_slice_nodead].
+Qed.
+
+Lemma compose_len_rdata_nodead c r w :
+  WG c ok12 w -> 12 <= mlen (w_buf w) -> Forall wf_item (r_data r) -> rdata_ulen (r_data r) <= 65535 ->
+  NoDead (compose_len_rdata c r w).
+Proof.
+  intros HW L Hwf Hlen. unfold compose_len_rdata.
+  destruct (uses_prefix c r).
+  - apply NoDead_bind; [apply append_slice_nodead|]. intros w1 E1.
+    destruct (WG_append c ok12 _ w w1 HW E1) as (HW1 & B1).
+    assert (L1 : mlen (w_buf w1) = mlen (w_buf w) + 2) by (rewrite B1, mlen_app; reflexivity).
+    pose proof (compose_items_nodead c ok12 (r_data r) w1 HW1 ltac:(unfold ok12; intros; lia) Hwf) as ND.
+    pose proof HW1 as (TB1 & SI1 & _).
+    pose proof (compose_items_spec c (r_data r) w1 TB1 SI1) as HS.
+    destruct (compose_items c (r_data r) w1) as [w2|w2| |] eqn:E2; try contradiction.
+    + apply compose_items_len_le in E2.
+      destruct (N.leb_spec (mlen (w_buf w2) - mlen (w_buf w1)) rdlen_max) as [X|X]; [exact I|]. unfold rdlen_max in X. lia.
+    + rewrite (truncate_back c w1 w2 TB1 SI1 HS). exact I.
+  - destruct (N.ltb_spec rdlen_max (rdata_ulen (r_data r))) as [X|X]; [unfold rdlen_max in X; lia|].
+    apply NoDead_bind; [apply append_slice_nodead|]. intros w1 E1.
+    destruct (WG_append c ok12 _ w w1 HW E1) as (HW1 & B1).
+    apply (compose_items_nodead c ok12); auto. unfold ok12. intros i Hi. rewrite B1, mlen_app in Hi. lia.
+Qed.
+
+Lemma compose_record_nodead c r w :
+  WG c ok12 w -> 12 <= mlen (w_buf w) -> wf_r r -> rdata_ulen (r_data r) <= 65535 ->
+  NoDead (compose_record c r w).
+Proof.
+  intros HW L (Hn & _ & _ & _ & Hwf) Hlen. unfold compose_record.
+  apply NoDead_bind; [apply (acn_nodead c ok12); exact (proj2 (proj2 HW))|]. intros w1 E1.
+  destruct (WG_acn c ok12 _ w w1 HW ltac:(unfold ok12; intros; lia) Hn E1) as (HW1 & _ & sfx1 & B1).
+  apply NoDead_bind; [apply append_slice_nodead|]. intros w2 E2.
+  destruct (WG_append c ok12 _ w1 w2 HW1 E2) as (HW2 & B2).
+  apply NoDead_bind; [apply append_slice_nodead|]. intros w3 E3.
+  destruct (WG_append c ok12 _ w2 w3 HW2 E3) as (HW3 & B3).
+  apply NoDead_bind; [apply append_slice_nodead|]. intros w4 E4.
+  destruct (WG_append c ok12 _ w3 w4 HW3 E4) as (HW4 & B4).
+  apply compose_len_rdata_nodead; auto. rewrite B4, B3, B2, B1, !mlen_app. lia.
+Qed.
+
+Lemma compose_opts_nodead c opts : forall w, NoDead (compose_opts c opts w).
+Proof.
+  induction opts as [|[[code dlen] data] r IH]; intros w; cbn [compose_opts]; [exact I|].
+  apply NoDead_bind; [apply append_slice_nodead|]. intros w1 _.
+  apply NoDead_bind; [apply append_slice_nodead|]. intros w2 _.
+  apply NoDead_bind; [apply append_slice_nodead|]. intros w3 _. apply IH.
+Qed.
+
+Lemma compose_opt_nodead c udp opts w : TBound w -> SInv c w -> NoDead (compose_opt c udp opts w).
+Proof.
+  intros TB SI. unfold compose_opt.
+  apply NoDead_bind; [apply append_slice_nodead|]. intros w1 E1.
+  pose proof (append_slice_spec c opt_header_default w TB SI) as H1. rewrite E1 in H1. destruct H1 as (X1 & TB1 & SI1).
+  pose proof (append_slice_mlen _ _ _ _ E1) as L1.
+  apply NoDead_bind; [apply append_slice_nodead|]. intros w2 E2.
+  pose proof (append_slice_spec c [0; 0] w1 TB1 SI1) as H2. rewrite E2 in H2. destruct H2 as (X2 & TB2 & SI2).
+  pose proof (append_slice_mlen _ _ _ _ E2) as L2.
+  change (mlen opt_header_default) with 9 in L1. change (mlen [0; 0]) with 2 in L2.
+  assert (E02 : Ext c (mlen (w_buf w)) w w2) by (eapply Ext_trans; eauto; lia).
+  destruct (patch_spec c w w2 (mlen (w_buf w) + 3) udp TB2 SI2 E02) as (E3 & TB3 & SI3); [lia|lia|].
+  set (w3 := set_buf w2 (patch16 (mlen (w_buf w) + 3) udp (w_buf w2))) in *.
+  assert (L3 : mlen (w_buf w3) = mlen (w_buf w2)).
+  { subst w3. unfold set_buf; cbn [w_buf]. apply patch16_mlen. lia. }
+  pose proof (compose_opts_nodead c opts w3) as ND.
+  pose proof (compose_opts_spec c opts w3 TB3 SI3) as H4.
+  destruct (compose_opts c opts w3) as [w4|w4| |]; try contradiction.
+  - destruct H4 as (E4 & _). destruct (_ <=? rdlen_max); [exact I|].
+    rewrite <- L3. rewrite (truncate_back c w3 w4 TB3 SI3 E4). exact I.
+  - rewrite <- L3. rewrite (truncate_back c w3 w4 TB3 SI3 H4). exact I.
+Qed.
+
+(* --------------------------------------------------------- every operation *)
+
+Definition wf_op_sized (o : op) : Prop :=
+  wf_op o /\ match o with OpR r => rdata_ulen (r_data r) <= 65535 | _ => True end.
+
+Lemma mb_push_alive c s f : BW c s -> WSpec c f -> NoDead (f (b_w s)) -> alive (snd (mb_push c s f)).
+Proof.
+  intros HB Hf ND. pose proof HB as (TB & SI & _). specialize (Hf (b_w s) TB SI). unfold mb_push.
+  destruct (f (b_w s)) as [w|w| |]; try contradiction.
+  - destruct Hf as (E & _). destruct (limit_hit _ _); [rewrite fail_push_back; auto; reflexivity|].
+    destruct (count_max <=? count_of s); [rewrite fail_push_back; auto; reflexivity|reflexivity].
+  - rewrite fail_push_back; auto. reflexivity.
+Qed.
+
+Lemma step_alive c s a bs o :
+  BW c s -> CountInv s a -> Layout s a bs -> wf_op_sized o -> alive (snd (step c s o)).
+Proof.
+  intros HB HCt HL (Hwf & Hsz). pose proof HB as (TB & SI & L12 & _).
+  pose proof HL as (_ & HC & _).
+  assert (HW : WG c ok12 (b_w s)) by (split; [exact TB|split; [exact SI|exact HC]]).
+  destruct o as [q|rr|udp opts| | | |l]; cbn [step]; cbn [wf_op] in Hwf.
+  - destruct (b_sec s =? 0); [|reflexivity].
+    apply mb_push_alive; auto; [apply compose_question_spec|apply compose_question_nodead; auto].
+  - destruct (b_sec s =? 0); [reflexivity|].
+    apply mb_push_alive; auto; [apply compose_record_spec|apply compose_record_nodead; auto].
+  - destruct (b_sec s =? 3); [|reflexivity].
+    apply mb_push_alive; auto; [apply compose_opt_spec|apply compose_opt_nodead; auto].
+  - destruct (b_sec s <? 3); reflexivity.
+  - destruct (b_sec s =? 0); [reflexivity|].
+    destruct (rewind_inv c s HB) as (w & _ & ER & _). rewrite ER. reflexivity.
+  - destruct (rewind_inv c s HB) as (w & _ & ER & _). rewrite ER. reflexivity.
+  - reflexivity.
+Qed.
+
+(* no operation sequence makes the builder panic or loop *)
+Lemma run_acc_total c ops : forall s a bs s' a' ws,
+  BW c s -> CountInv s a -> Layout s a bs -> Forall wf_op_sized ops ->
+  run_acc c s a ops = (s', a', ws) -> all_alive ws.
+Proof.
+  induction ops as [|o r IH]; intros s a bs s' a' ws HB HC HL Hwf H; cbn [run_acc] in H.
+  - injection H as <- <- <-. constructor.
+  - inversion Hwf as [|? ? Ho Hr]; subst.
+    pose proof (step_alive c s a bs o HB HC HL Ho) as AL.
+    destruct (step c s o) as [s1 w] eqn:ES. cbn [snd] in AL.
+    unfold alive in AL. rewrite AL in H.
+    destruct (run_acc c s1 (acc_step (b_sec s) a o w) r) as [[s2 a2] ws2] eqn:ER.
+    injection H as <- <- <-.
+    destruct (step_inv c s a o s1 w HB HC ES AL) as (HB1 & HC1).
+    destruct (step_layout c s a bs o s1 w HB HC HL (proj1 Ho) ES AL) as (bs1 & HL1).
+    constructor; [exact AL|]. eapply IH; eauto.
+Qed.
+
+Theorem run_total c ops s0 s a ws :
+  init c = Some s0 -> Forall wf_op_sized ops -> run_acc c s0 acc0 ops = (s, a, ws) -> all_alive ws.
+Proof.
+  intros HI Hwf HR. destruct (init_inv c s0 HI) as (HB0 & HC0).
+  eapply (run_acc_total c ops s0 acc0 [12]); eauto. apply (init_layout c); exact HI.
+Qed.
+
+Lemma Forall_sized_wf ops : Forall wf_op_sized ops -> Forall wf_op ops.
+Proof. intros H. eapply Forall_weaken; [|exact H]. intros o [Ho _]. exact Ho. Qed.
+
+(* the property without side conditions other than well-formed input *)
+Theorem build_parse_total c ops s0 s a ws :
+  init c = Some s0 -> Forall wf_op_sized ops -> run_acc c s0 acc0 ops = (s, a, ws) ->
+  all_alive ws /\ exists a', rd_message (msg_of s) a = Ok a' /\ acc_eqb a' a = true.
+Proof.
+  intros HI Hwf HR. pose proof (run_total c ops s0 s a ws HI Hwf HR) as AL.
+  split; [exact AL|]. apply (build_parse c ops s0 s a ws HI (Forall_sized_wf ops Hwf) HR AL).
+Qed.
+
+(* ----------------------------- hash lookups depend only on the set of entries *)
+
+Definition hmatch (m : bytes) (ml : N) (l : label) (pos : N) (e : N * N) : Prop :=
+  exists hl, label_at m ml (fst e) = Some hl /\ label_eq hl l = true /\ snd e = pos.
+
+Lemma hash_find_spec m ml l pos : forall es,
+  Forall (fun e => label_at m ml (fst e) <> None) es ->
+  match hash_find m ml es l pos with
+  | Ok (Some h) => exists e, In e es /\ fst e = h /\ hmatch m ml l pos e
+  | Ok None => forall e, In e es -> ~ hmatch m ml l pos e
+  | _ => False
+  end.
+Proof.
+  induction es as [|[h t] es IH]; intros HR; cbn [hash_find]; [intros e []|].
+  inversion HR as [|? ? Hh HR']; subst. cbn [fst] in Hh.
+  destruct (label_at m ml h) as [hl|] eqn:EL; [|contradiction].
+  destruct (label_eq hl l && (t =? pos)) eqn:E.
+  - apply andb_true_iff in E as [E1 E2]. apply N.eqb_eq in E2.
+    exists (h, t). split; [left; reflexivity|]. split; [reflexivity|]. exists hl. auto.
+  - specialize (IH HR'). destruct (hash_find m ml es l pos) as [[h'|]| | |]; try contradiction.
+    + destruct IH as (e & Hin & Hf & Hm). exists e. split; [right; exact Hin|auto].
+    + intros e [<-|Hin]; [|apply IH; exact Hin].
+      intros (hl' & A & B & C). cbn [fst snd] in *. rewrite EL in A. injection A as <-.
+      rewrite B in E. cbn [andb] in E. apply N.eqb_neq in E. contradiction.
+Qed.
+
+(* HashTable::find may meet the entries in any order: when at most one entry
+   matches a query (the uniqueness the insertion discipline maintains), the
+   result is the same for every arrangement of the same entries *)
+Theorem hash_find_order_irrelevant m ml l pos es es' :
+  (forall e, In e es <-> In e es') ->
+  Forall (fun e => label_at m ml (fst e) <> None) es ->
+  (forall e1 e2, In e1 es -> In e2 es -> hmatch m ml l pos e1 -> hmatch m ml l pos e2 -> fst e1 = fst e2) ->
+  hash_find m ml es' l pos = hash_find m ml es l pos.
+Proof.
+  intros Hset HR Hu.
+  assert (HR' : Forall (fun e => label_at m ml (fst e) <> None) es').
+  { rewrite Forall_forall in *. intros e He. apply HR, Hset, He. }
+  pose proof (hash_find_spec m ml l pos es HR) as S1. pose proof (hash_find_spec m ml l pos es' HR') as S2.
+  destruct (hash_find m ml es l pos) as [[h|]| | |]; try contradiction;
+    destruct (hash_find m ml es' l pos) as [[h'|]| | |]; try contradiction.
+  - destruct S1 as (e1 & I1 & F1 & M1). destruct S2 as (e2 & I2 & F2 & M2).
+    rewrite <- F1, <- F2. f_equal. f_equal. apply Hu; auto. apply Hset; exact I2.
+  - destruct S1 as (e1 & I1 & F1 & M1). exfalso. apply (S2 e1); [apply Hset; exact I1|exact M1].
+  - destruct S2 as (e2 & I2 & F2 & M2). exfalso. apply (S1 e2); [apply Hset; exact I2|exact M2].
+  - reflexivity.
+Qed.
+
+(* the size premise of run_total is needed: 65536 octets of record data whose
+   length the type does not announce make compose_prefixed panic ("long data") *)
+Example long_data_panics :
+  let c := mkCfg None false KNone in
+  match init c with
+  | Some s0 => snd (step c (fst (step c s0 OpNext)) (OpR (mkR [] 16 1 0 true [RBytes (repeat 0 (N.to_nat 65536))])))
+               = RPanic P_LONG_DATA
+  | None => False
+  end.
+Proof. vm_compute. reflexivity. Qed.
